@@ -165,18 +165,28 @@ class Sim(object):
         return h.hexdigest()
 
     def fingerprint(self):
-        """abstracted trace: action labels with numbers removed, runs collapsed"""
+        """
+        abstracted trace: scheduler action labels with numbers removed and
+        repeats collapsed, plus the entries whose tag the scenario listed in
+        sim.fp_keep (kept verbatim, e.g. delivery sizes or reply kinds)
+        """
         h = hashlib.blake2b(digest_size=8)
         last = None
+        keep = self.fp_keep
         for e in self.trace:
-            if e[0] != 'step':
+            if e[0] == 'step':
+                lab = _num_re.sub('#', e[2])
+            elif e[0] in keep:
+                lab = repr(e)
+            else:
                 continue
-            lab = _num_re.sub('#', e[2])
             if lab != last:
                 h.update(lab.encode())
                 h.update(b'|')
                 last = lab
         return int.from_bytes(h.digest(), 'big')
+
+    fp_keep = frozenset()
 
     # --- exception handling at the "reactor" level -----------------------
     def reactor_exception(self, where, exc):
